@@ -384,6 +384,7 @@ func TestRun(t *testing.T) {
 	}
 	wg.Wait()
 	nstart(rec)
+	nstartClock(rec)
 	rec.Assume("start stamp of the pending entry lies in [time before the call, time after the first datagram was observed]; ticks are never placed inside that bracket +/- 1 min")
 	rec.Assume("'attempts exhausted' = a tick finds all MAX_RETRANSMIT copies already sent; an ACK delivered before that must make the call succeed, afterwards either outcome is accepted")
 	_ = pool.New
@@ -436,4 +437,96 @@ func nstart(rec *vr.Rec) {
 			rec.Eval(fmt.Sprintf("nstart|%d|%d", n, rep%3))
 		}
 	}
+}
+
+// nstartClock: the retransmission clock of a request that had to wait for its NSTART slot starts
+// at its first transmission, not when it was queued. The wait is real time (the library stamps
+// with the wall clock) and several times longer than ACK_TIMEOUT; the ticks are virtual and placed
+// relative to the observed first transmission.
+func nstartClock(rec *vr.Rec) {
+	const ackTimeout = 300 * time.Millisecond
+	reps := vr.Scale(4, 40)
+	var wg sync.WaitGroup
+	for rep := 0; rep < reps; rep++ {
+		wg.Add(1)
+		go func(rep int) {
+			defer wg.Done()
+			c := map[string]any{"scenario": "second request queued behind NSTART=1 for 2.5 x ACK_TIMEOUT", "ack_timeout_ms": 300, "rep": rep}
+			s := sim.NewMemSession()
+			cc := sim.NewUDPConn(s, sim.UDPOpts{Mutate: func(cfg *udpclient.Config) {
+				cfg.TransmissionAcknowledgeTimeout = ackTimeout
+				cfg.TransmissionMaxRetransmit = 3
+				cfg.TransmissionNStart = 1
+			}})
+			defer cc.Close()
+			get := func(path string, done chan error) {
+				ctx, cancel := context.WithTimeout(context.Background(), 20*time.Second)
+				defer cancel()
+				m, err := cc.Get(ctx, path)
+				if err == nil {
+					cc.ReleaseMessage(m)
+				}
+				done <- err
+			}
+			da, db := make(chan error, 1), make(chan error, 1)
+			go get("/a", da)
+			if !s.WaitLen(1, 10*time.Second) {
+				rec.Inconclusive("nstart-clock: first request not seen")
+				return
+			}
+			go get("/b", db)
+			time.Sleep(750 * time.Millisecond) // /b waits for its slot 2.5 x ACK_TIMEOUT (no tick is driven meanwhile)
+			if s.Len() != 1 {
+				rec.Violation("C06/nstart-exceeded", "second confirmable request transmitted while the first was outstanding (NSTART 1)", c)
+				return
+			}
+			a, _ := ref.ParseUDP(s.Log()[0].Data)
+			lo := time.Now()
+			_ = cc.Process(nil, ref.EncodeUDP(ref.Msg{Type: 2, Code: 0x45, MID: a.MID, Token: a.Token, Payload: []byte("a")}))
+			if err := <-da; err != nil {
+				rec.Inconclusive("nstart-clock: first request failed: " + err.Error())
+				return
+			}
+			if !s.WaitLen(2, 10*time.Second) {
+				rec.Inconclusive("nstart-clock: second request not transmitted")
+				return
+			}
+			hi := time.Now()
+			_ = lo
+			first := s.Log()[1].Data
+			// a tick 30 ms after the first transmission: nothing may be re-sent
+			cc.CheckExpirations(hi.Add(30 * time.Millisecond))
+			n := 0
+			for _, d := range s.Log()[2:] {
+				if bytes.Equal(d.Data, first) {
+					n++
+				}
+			}
+			rec.Eval(fmt.Sprintf("nstart-clock|%d", rep%2))
+			rec.Count("nstart_clock_cases", 1)
+			if n > 0 {
+				rec.Violation("C06/copy-too-early", "a request that waited 750 ms for its NSTART slot was re-sent by a tick 30 ms after its first transmission (ACK_TIMEOUT 300 ms): its retransmission clock started when it was queued", c)
+				return
+			}
+			// a tick after ACK_TIMEOUT: exactly one copy
+			before := s.Len()
+			cc.CheckExpirations(hi.Add(ackTimeout + 50*time.Millisecond))
+			n = 0
+			for _, d := range s.Log()[before:] {
+				if bytes.Equal(d.Data, first) {
+					n++
+				}
+			}
+			if n != 1 {
+				rec.Violation("C06/due-copy-not-sent", fmt.Sprintf("tick at first transmission + ACK_TIMEOUT + 50 ms emitted %d copies", n), c)
+				return
+			}
+			b, _ := ref.ParseUDP(first)
+			_ = cc.Process(nil, ref.EncodeUDP(ref.Msg{Type: 2, Code: 0x45, MID: b.MID, Token: b.Token, Payload: []byte("b")}))
+			if err := <-db; err != nil {
+				rec.Violation("C06/no-success-although-acknowledged", "second request: "+err.Error(), c)
+			}
+		}(rep)
+	}
+	wg.Wait()
 }
